@@ -33,7 +33,7 @@ class Interner:
 
 
 def body_key(spec, n):
-    return (n["kind"], n["name"], n["const"], n["setconst"], n["tupconst"], n["nested"], n.get("sset"), n.get("pair"), n.get("shadow"), n["default"] is not None,
+    return (bool(n.get("lam")), n["kind"], n["name"], n["const"], n["setconst"], n["tupconst"], n["nested"], n.get("sset"), n.get("pair"), n.get("shadow"), bool(n.get("objdefault")), n["default"] is not None,
             n["kwdefault"] is not None, tuple(sorted(map(tuple, n["refs"]))), n["hidden"])
 
 
@@ -93,7 +93,7 @@ def honour_pins(old, new):
 
 def make_history(rng, n_edits, concat_scenario=False):
     spec = vprog.gen_spec(rng, n_m=rng.randint(2, 4), n_p=rng.randint(1, 3), n_v=rng.randint(1, 3), p_hidden=0.12, p_explicit=0.2, allow_cycles=False,
-                          pkg2=rng.random() < 0.4)
+                          pkg2=rng.random() < 0.4, lambdas=rng.random() < 0.4)
     eds, descs = [spec], ["initial"]
     for _ in range(n_edits):
         nxt, d = vprog.edit(rng, eds[-1])
